@@ -60,6 +60,10 @@ class BranchingValues:
             ret[nm] = copy.deepcopy(val)
         return ret
 
+def _merge(cond, nwval, oldval):
+    """ Value of a variable after a branch; an untouched object (possibly a callable) is kept as it is """
+    return nwval if nwval is oldval else if_then_else(cond, nwval, oldval)
+
 class BranchContext:
     def __init__(self, cond, ctx):
         self.ctx = ctx
@@ -77,12 +81,12 @@ class BranchContext:
         else:
             for nm in self.nodefvals:
                 if not nm in self.ctx.vals: raise RuntimeError("branch did not set value for " + nm)
-                self.nodefvals[nm] = if_then_else(self.cond, self.ctx.vals[nm], self.nodefvals[nm])
+                self.nodefvals[nm] = _merge(self.cond, self.ctx.vals[nm], self.nodefvals[nm])
         for nm in self.nodefvals: del self.ctx.vals[nm]
             
         for nm in self.ctx.vals:
             if nm in self.bak:
-                self.ctx.vals[nm] = if_then_else(self.cond, self.ctx.vals[nm], self.bak[nm])
+                self.ctx.vals[nm] = _merge(self.cond, self.ctx.vals[nm], self.bak[nm])
             else:
                 raise RuntimeError("branch set spurious value: " + nm)
         
